@@ -238,6 +238,20 @@ func checkCTEFreshNames(c *core.Ctx, rule string) {
 	if bad == "" && !fresh {
 		bad = "a reference to a common table expression does not allocate fresh unique column names (no GetUnique call)"
 	}
+	// the reference is known by its own alias (FROM cte x), as a table or a subquery is
+	usesAlias := false
+	recvName := ""
+	if fn.Decl.Recv != nil && len(fn.Decl.Recv.List[0].Names) > 0 {
+		recvName = fn.Decl.Recv.List[0].Names[0].Name
+	}
+	ast.Inspect(block.Body, func(nd ast.Node) bool {
+		if se, ok := nd.(*ast.SelectorExpr); ok && se.Sel.Name == "alias" && core.ExprStr(se.X) == recvName {
+			usesAlias = true
+		}
+		return true
+	})
+	c.Decide(usesAlias, rule, key+"/alias", block.Pos(), 1, "the columns of a reference are qualified with the reference's alias",
+		"a reference to a common table expression ignores its alias: with `WITH a AS (…) SELECT z.k FROM a z` the column z.k is unknown, z.* expands to no columns, and the qualifiers used inside the expression leak out instead")
 	c.Decide(bad == "" && n > 0, rule, key, block.Pos(), n, "each reference gets fresh unique names and its own mapping", bad)
 }
 
